@@ -125,7 +125,7 @@ func (c cfg) alertProps(topic string) string {
 			}
 		}
 	}
-	fmt.Fprintf(&b, ".topic('%s').levelField('lvl').durationField('dur').idField('aid')", topic)
+	fmt.Fprintf(&b, ".topic('%s').levelField('lvl').durationField('dur').idField('aid').messageField('msg').levelTag('ltag').idTag('itag')", topic)
 	if c.sco {
 		if c.scoDur != 0 {
 			fmt.Fprintf(&b, ".stateChangesOnly(%du)", c.scoDur)
@@ -250,18 +250,21 @@ func lvlNum(s string) string {
 	return "bad"
 }
 
-func fwdFields(id string, t int64, f models.Fields, extra string) string {
+// escC is kit.Esc with ':' escaped too (':' separates the parts of an observation token).
+func escC(s string) string { return strings.ReplaceAll(kit.Esc(s), ":", "%3A") }
+
+// fwdFields renders what the alert node forwarded for one point: the ID of the data (measurement:group), the values of
+// idField, levelField, the time, durationField, messageField, levelTag, idTag and the number of points of the message.
+func fwdFields(id string, t int64, f models.Fields, tags models.Tags, n int) string {
 	lv, _ := f["lvl"].(string)
 	aid, _ := f["aid"].(string)
+	msg, _ := f["msg"].(string)
 	d, ok := f["dur"].(int64)
 	ds := "bad"
 	if ok {
 		ds = strconv.FormatInt(d, 10)
 	}
-	if aid != id {
-		return kit.Esc(id) + ":badid"
-	}
-	return fmt.Sprintf("%s:%s:%d:%s%s", kit.Esc(id), lvlNum(lv), t, ds, extra)
+	return fmt.Sprintf("%s:%s:%s:%d:%s:%s:%s:%s:%d", escC(id), escC(aid), escC(lv), t, ds, escC(msg), escC(tags["ltag"]), escC(tags["itag"]), n)
 }
 
 func list(xs []string) string {
@@ -472,21 +475,26 @@ func (r *runner) execCase(ops []string) (out []string, err error) {
 			switch x := m.(type) {
 			case edge.PointMessage:
 				id := "m:" + string(x.GroupID())
-				fw = append(fw, fwdFields(id, x.Time().UnixNano(), x.Fields(), ""))
+				fw = append(fw, fwdFields(id, x.Time().UnixNano(), x.Fields(), x.Tags(), 1))
 			case edge.BufferedBatchMessage:
-				id := "m:" + string(x.GroupID())
-				var first string
-				same := true
+				// every point of a forwarded batch, and the batch's own tags, must carry the same event data.
+				// (The tags of a batch ARE its group: levelTag/idTag re-group the forwarded batch by design of
+				// beginBatchMessage.SetTags, so the data is identified by its host tag, not by GroupID.)
+				id := "m:host=" + x.Tags()["host"]
+				first := fwdFields(id, x.Time().UnixNano(), models.Fields{}, x.Tags(), len(x.Points()))
 				for i, bp := range x.Points() {
-					s := fwdFields(id, x.Time().UnixNano(), bp.Fields(), fmt.Sprintf(":%d", len(x.Points())))
+					s := fwdFields(id, x.Time().UnixNano(), bp.Fields(), bp.Tags(), len(x.Points()))
 					if i == 0 {
+						bt := fwdFields(id, x.Time().UnixNano(), bp.Fields(), x.Tags(), len(x.Points()))
+						if bt != s {
+							first = escC(id) + ":inconsistent-batch-tags"
+							break
+						}
 						first = s
 					} else if s != first {
-						same = false
+						first = escC(id) + ":inconsistent-points"
+						break
 					}
-				}
-				if !same {
-					first = kit.Esc(id) + ":inconsistent"
 				}
 				fw = append(fw, first)
 			}
